@@ -330,9 +330,12 @@ fn check_inner(t: &str, v: &Value) -> Result<(), String> {
             Ok(())
         },
         "gvr" => {
-            let mut bits = 0u8;
-            for x in v["vars"].as_array().ok_or("vars")? { bits |= x.as_u64().unwrap_or(0) as u8; }
-            let vars = fcgi::ProtocolVariables::from_bits(bits).ok_or("bits")?;
+            // the set is built the way a query builds it - by name; which bit a name occupies is the implementation's business
+            let mut vars = fcgi::ProtocolVariables::empty();
+            for x in v["vars"].as_array().ok_or("vars")? {
+                let name: &[u8] = match x.as_u64().unwrap_or(0) { 1 => b"FCGI_MAX_CONNS", 2 => b"FCGI_MAX_REQS", 4 => b"FCGI_MPXS_CONNS", _ => return Err("variable code".into()) };
+                vars |= fcgi::ProtocolVariables::parse_name(name).map_err(|_| format!("{} is not recognised", String::from_utf8_lossy(name)))?;
+            }
             let digits: String = v["digits"].as_array().ok_or("digits")?.iter().map(|d| char::from(b'0' + d.as_u64().unwrap_or(0) as u8)).collect();
             let limit: usize = digits.parse().map_err(|e| format!("limit {digits}: {e}"))?;
             let config = Config::with_conns(limit.try_into().map_err(|_| "zero limit")?);
